@@ -258,6 +258,8 @@ class C04(PropertyCheck):
                 T, width = 1, rng.choice([V - 1, V, V + 1, V + 7])     # one step, the whole vocabulary fits
             elif r < 0.2:
                 width = rng.choice([1, V - 1, V, V + 1])
+                if width * V > 1 << 17:
+                    T = 1                   # V * V candidates at the second step: beyond 2^17 only one step
         elif dim == "width":
             width = rng.choice(bucket)
             V = rng.choice([4, 5, 6] if width > 600 else [2, 3, 4, 5, 6])
@@ -288,7 +290,7 @@ class C04(PropertyCheck):
         fl = rng.random() < 0.5 and T <= 33
         force = None
         if fl:
-            kind = rng.choice(["hash", "fusion", "mixfusion", "lookup", "rec"])
+            kind = rng.choice(["hash", "hash", "fusion", "fusion", "mixfusion", "lookup", "rec"])
             lm.update({"kind": kind, "dtype": rng.choice(["float32", "float32", "float64", "float64", "float16",
                                                           "bfloat16"]), "view": rng.random() < 0.15})
             if kind in ("fusion", "mixfusion") and rng.random() < 0.3:
@@ -296,8 +298,10 @@ class C04(PropertyCheck):
             if kind == "rec":
                 lm["h0"] = rng.random() < 0.8
             if kind == "lookup":
-                lm.update({"order": rng.choice([1, 2, 2, 3]), "sos": rng.choice([-1, 0, V - 1, V]),
-                           "table_seed": rng.randrange(1, 1 << 30)})
+                # a unigram LookupLanguageModel over more than 256 entries cannot be constructed (numpy 2:
+                # "Python integer 256 out of bounds for uint8" in _build_trie; reported, outside C04)
+                lm.update({"order": rng.choice([1, 2, 2, 3] if V < 256 else [2, 2, 3]),
+                           "sos": rng.choice([-1, 0, V - 1, V]), "table_seed": rng.randrange(1, 1 << 30)})
             else:
                 lm["beta"] = rng.choice([0.5, 1.0, 0.25])
             via = "nohook"
@@ -385,6 +389,7 @@ class C04(PropertyCheck):
         reps = 1 if tier == "quick" else 6
         for _ in range(reps):
             for b in self.SIZE_BUCKETS:
+                yield self._size_search_case(rng, "V", b)
                 yield self._size_search_case(rng, "V", b)
                 yield self._size_advance_case(rng, "V", b)
                 yield self._size_search_case(rng, "width", b)
@@ -585,6 +590,14 @@ class C04(PropertyCheck):
                 return [tb] * n, ctx, e_tok
             return [build(lm, ctx[i], case["qbits"], depth, e_tok, case["lm"], quant)
                     for i in range(n)], ctx, e_tok
+
+    @staticmethod
+    def _sep_evaluated(case):
+        """`sepB` compares every selected candidate with every candidate (width x width*V pairs per step): it
+        is re-evaluated by the driver up to 2^18 pairs, i.e. on all small cases and on the size classes with
+        beams up to width 16 at V = 1024 / width 200 at V = 6; beyond that the comparison rule is applied
+        without this side check (tag `float.skeleton_stable_hypothesis(sepB)=not evaluated`)."""
+        return case["width"] * case["width"] * case["V"] <= 1 << 18
 
     def _small(self, case):
         """the whole tree of histories up to the step limit is small enough to be enumerated (completeness
@@ -844,7 +857,7 @@ class C04(PropertyCheck):
         batch = [{"table": [[list(h), [frac_str(x) for x in sc]] for h, sc in tb.items()]} for tb in tables]
         req = {"V": case["V"], "width": case["width"], "eos": case["eos"], "finish_all": case["finish_all"],
                "pad": case["pad"], "max_iters": T, "batch": batch, "queries": queries, "complete_T": comp}
-        if is_float(case):
+        if is_float(case) and self._sep_evaluated(case):
             # the driver also evaluates the hypothesis of C04_skeleton_stable (`sepB margin` on every
             # selection of the model's trajectory) with margin = half the decision margin = 8 tolerances
             req["margin"] = frac_str(gap_of(case) / 2)
@@ -1103,7 +1116,9 @@ class C04(PropertyCheck):
                 ft.append(case["kind"] + ".stream=exact(finite slots; -inf ties present)")
             else:
                 ft.append(case["kind"] + ".stream=exact")
-                if is_float(case) and fl[1].get("sep") is True:
+                if is_float(case) and not self._sep_evaluated(case):
+                    ft.append("float.skeleton_stable_hypothesis(sepB)=not evaluated (more than 2^18 pairs)")
+                elif is_float(case) and fl[1].get("sep") is True:
                     ft.append("float.skeleton_stable_hypothesis(sepB)=holds")
             if fl[2]:
                 ft.append(case["kind"] + ".model_error")
@@ -1204,6 +1219,11 @@ class C04(PropertyCheck):
             if fl_ := self._flagmap.get(case_hash(case)):
                 if any(f is not None and f < impl["S"] for f in fl_[0].get("frozen", [])):
                     t.append("frozen_element_padded")
+            if sz and any(len({tuple(s["path"][:-1]) for s in e_ if s.get("len", 0) >= 2}) > 1
+                          for e_ in impl["elems"]):
+                # the surviving paths of a beam extend DIFFERENT prefixes (a beam whose paths all extend the
+                # best prefix cannot tell source indices apart)
+                t.append("search.size: final beam extends several prefixes")
             if len(impl["elems"]) > 1 and "single" in impl:
                 ls = {max([s.get("len", 0) for s in e_] + [0]) for e_ in impl["elems"]}
                 if len(ls) > 1:
@@ -1214,20 +1234,22 @@ class C04(PropertyCheck):
         if case["kind"] == "advance":
             case = self._adv_data(case)     # regenerated tensors are written out, then cut down
             for k in ("N", "Kp"):
-                if case[k] > 1:
+                for v in (case[k] // 2, case[k] - 1):
+                    if 1 <= v < case[k]:
+                        c = dict(case)
+                        c[k] = v
+                        n, kp = c["N"], c["Kp"]
+                        c["prev"] = [r[:kp] for r in case["prev"][:n]]
+                        c["logp"] = [r[:kp] for r in case["logp"][:n]]
+                        c["y"] = [r[:kp] for r in case["y"][:n]]
+                        if case["lens"] is not None:
+                            c["lens"] = [r[:kp] for r in case["lens"][:n]]
+                        yield c
+            for w in (case["width"] // 2, case["width"] - 1):
+                if 1 <= w < case["width"]:
                     c = dict(case)
-                    c[k] = case[k] - 1
-                    n, kp = c["N"], c["Kp"]
-                    c["prev"] = [r[:kp] for r in case["prev"][:n]]
-                    c["logp"] = [r[:kp] for r in case["logp"][:n]]
-                    c["y"] = [r[:kp] for r in case["y"][:n]]
-                    if case["lens"] is not None:
-                        c["lens"] = [r[:kp] for r in case["lens"][:n]]
+                    c["width"] = w
                     yield c
-            if case["width"] > 1:
-                c = dict(case)
-                c["width"] = case["width"] - 1
-                yield c
             return
         if "junk" not in case:      # smaller candidates keep the uninitialised-cell value of the failing run
             case = dict(case, junk=self.junk_of(case))
